@@ -57,7 +57,9 @@ def gen_history(draw):
         elif k.startswith("destroy"):
             steps.append({"k": "destroy", "which": k.split("-")[1], "n": draw(st.integers(0, 50)),
                           "batch": draw(st.sampled_from([None, None, "then-fail", "then-fail-continue", "then-ok", "after-ok",
-                                                         "then-probe", "then-probe", "read-then-probe"])),
+                                                         "then-probe", "then-probe", "read-then-probe",
+                                                         "wrap-then-probe"])),
+                          "paged": draw(st.booleans()),
                           "alias": draw(st.sampled_from([None, None, "0%s", " %s", "%s.0", "+%s"]))})
             live -= 1
             dead += 1
@@ -197,6 +199,11 @@ class Run(object):
         mode = step.get("batch")
         d = {"op": "Destroy", "uid": o["uid"]}
         alias = step["alias"] % o["uid"] if step.get("alias") and o["uid"].isdigit() else None
+        if step.get("paged"):
+            # the owner pages through Locate before the Destroy ...
+            cli.one({"op": "Locate", "max": 1})
+            cli.one({"op": "Locate", "max": 2, "attrs": [["Object Type", "SymmetricKey"]]})
+            self.classes.append("locate-pages-around-destroy")
         if alias is not None:
             # the object is read under another spelling of its identifier while it is alive ...
             cli.one({"op": "Get", "uid": alias})
@@ -212,10 +219,18 @@ class Run(object):
             probes = [{"op": "Get", "uid": o["uid"]}, {"op": "GetAttributes", "uid": o["uid"]},
                       {"op": "GetAttributeList", "uid": o["uid"]}, {"op": "Activate", "uid": o["uid"]},
                       {"op": "Locate"}]
+            # the object as the WRAPPING key of a Get of another object, before and after its
+            # own Destroy in one batch (made usable first: Activate, and ended: Revoke)
+            other = next((x for x in self.live if x is not o and x["owner"] == o["owner"]), o)
+            wget = {"op": "Get", "uid": other["uid"],
+                    "wrap": {"eki": {"uid": o["uid"], "params": {"mode": "NIST_KEY_WRAP"}}, "enc": "NO_ENCODING"}}
+            wrapseq = [{"op": "Activate", "uid": o["uid"]}, dict(wget),
+                       {"op": "Revoke", "uid": o["uid"], "code": "CESSATION_OF_OPERATION"}, d, dict(wget)]
             items = {"then-fail": [d, bad], "then-fail-continue": [d, bad, good], "then-ok": [d, good],
                      "after-ok": [good, d], "then-probe": [d] + probes,
-                     "read-then-probe": [{"op": "Get", "uid": o["uid"]}, d] + probes}[mode]
-            cont = mode in ("then-fail-continue", "then-probe", "read-then-probe")
+                     "read-then-probe": [{"op": "Get", "uid": o["uid"]}, d] + probes,
+                     "wrap-then-probe": wrapseq + probes}[mode]
+            cont = mode in ("then-fail-continue", "then-probe", "read-then-probe", "wrap-then-probe")
             rr = cli.request(items, **({"cont": "CONTINUE"} if cont else {}))
             its = rr["items"] or []
             r = next((i for i in its if i["op"] == "Destroy"), {"status": "MISSING", "reason": None})
@@ -227,6 +242,11 @@ class Run(object):
                         if it["status"] == "SUCCESS" and o["uid"] in (it["payload"] or {}).get("uids", []):
                             self.bucket("C07|dead-identifier-listed-by-locate|same-batch",
                                         "Locate in the batch that destroyed %s still lists it" % o["uid"])
+                    elif it["status"] == "SUCCESS" and it["op"] == "Get" and mode == "wrap-then-probe" \
+                            and str((it.get("payload") or {}).get("uid")) == str(other["uid"]) and other is not o:
+                        self.bucket("C07|dead-identifier-used-as-wrapping-key|same-batch",
+                                    "Get of %s wrapped with %s succeeded after the Destroy item of %s in "
+                                    "the same batch" % (other["uid"], o["uid"], o["uid"]))
                     elif it["status"] == "SUCCESS":
                         self.bucket("C07|operation-on-dead-identifier-succeeded|%s|same-batch" % it["op"],
                                     "%s of %s succeeded after the Destroy item of the same batch: %r"
@@ -236,6 +256,14 @@ class Run(object):
             return
         self.live.remove(o)
         self.dead.append(o)
+        if step.get("paged"):
+            # ... and goes on with the next pages afterwards: the dead identifier is on none
+            for flt in ([], [["Object Type", "SymmetricKey"]]):
+                for off in (1, 2, 3, 0):
+                    pg = cli.one({"op": "Locate", "offset": off, "max": 50, "attrs": flt})
+                    if pg["status"] == "SUCCESS" and o["uid"] in (pg["payload"] or {}).get("uids", []):
+                        self.bucket("C07|dead-identifier-listed-by-locate|later-page",
+                                    "Locate offset=%d max=50 %r after Destroy of %s lists it" % (off, flt, o["uid"]))
         if alias is not None:
             # ... and is dead under that spelling too afterwards
             for op in ("Get", "GetAttributes"):
